@@ -14,6 +14,7 @@ CHECKS = {
  "C01": ("model_checking", "All ordered pairs over 13 code spellings (one character, case, word added/removed, trailing hyphen, NFC vs NFD, NFC-equal and NFC-distinct look-alikes, nameplates) x appid variants (incl. a merged-namespace server so different appids meet) x set_code/input_code, run on the real SPAKE2/HKDF/SecretBox; derive_key over 6 purposes x 4 lengths; plus complete BFS of delivery/API schedules for representative pairs including the peer's PAKE arriving before the local code.", "code and purpose alphabets are finite samples of an infinite domain; schedules complete for the stated scripts", TECH),
  "C02": ("model_checking", "Every single tamper operation (bit flip at every body offset, truncate, extend, phase re-label, side rename/reflection, cross-phase replay, random and PAKE injection, drop, duplicate) at every position of both server->client message streams, plus BFS / deviation-bounded search with tamper operations as explored events (pairs of operations, all interleavings); ghost ledger of what honest parties encrypted is the oracle; derive_phase_key injectivity over a concatenation-ambiguity alphabet.", "adversary = server or third participant without the code; quick flips one bit per byte, thorough all eight", TECH),
  "C20": ("exploration", "Exhaustive enumeration of a hint-list grammar (valid direct/tor/relay hints, every single-field and pairwise mutation over 19 values, relay sub-hint mutations and non-object sub-hints, all priority type pairs, odd hostnames; ~2.3k lists) fed to TransitSender/TransitReceiver.add_connection_hints+connect() and to a CONNECTING dilation Manager on a simulated reactor; oracle: no exception, connect() not aborted, dial set within the reference set of valid targets, the valid neighbour hint still dialled; plus encode/parse and produce/consume round trips.", "no Tor manager; JSON booleans in `port` are don't-care; top-level entries are JSON objects as the property states", ENUM),
+ "C19": ("model_checking", "choose_words decided by enumeration of the random bytes (bijection per position, independence, exact reads); allocation through the real Allocator/Code against the real server; malformed/well-formed code alphabet; word completions for every prefix of every list word at positions 0-2 against a reference comprehension; all 1-3 call sequences of the code-entry API; and a BFS in which every input-helper call sequence (<=3, thorough 4) is interleaved with the server's nameplates/claimed replies and compared step by step with a reference model of the helper.", "exotic whitespace / non-ASCII digits in nameplates and the readline thread are outside the stated alphabet", TECH),
 }
 NA = {}
 props = [json.loads(l)["id"] for l in open(os.path.join(HERE, "properties.jsonl"))]
